@@ -115,7 +115,7 @@ def materialise(v, env):
             env.shared_objs[k] = materialise(env.shared_lits[k], env)
         return env.shared_objs[k]
     if '$grid' in v:
-        return env.grid_factory()
+        return env.grid_factory(v['$grid'])
     if '$kw' in v:
         return v
     raise ValueError('unknown literal %r' % (v,))
@@ -275,6 +275,15 @@ def r_vcv(rng, shape='3x3'):
         return _array_kind(rng, {'$array': [[round(rng.uniform(1e-6, 1e-2), 9)] for _ in range(3)]})
     a = [[rng.uniform(-0.05, 0.05) for _ in range(3)] for _ in range(3)]
     m = [[sum(a[i][k] * a[j][k] for k in range(3)) + (1e-6 if i == j else 0.0) for j in range(3)] for i in range(3)]
+    k = rng.random()
+    if k < 0.06:      # only the upper triangle filled in (as some adjustment programs list a VCV block)
+        m = [[m[i][j] if j >= i else 0.0 for j in range(3)] for i in range(3)]
+    elif k < 0.10:    # only the lower triangle
+        m = [[m[i][j] if j <= i else 0.0 for j in range(3)] for i in range(3)]
+    elif k < 0.14:    # diagonal
+        m = [[m[i][j] if j == i else 0.0 for j in range(3)] for i in range(3)]
+    elif k < 0.16:
+        m = [[0.0] * 3 for _ in range(3)]
     return _array_kind(rng, {'$array': m})
 
 
@@ -685,7 +694,7 @@ def _gen_atrf(rng, ctx):
 _simple('transform.transform_atrf2014_to_gda2020', 'f:transform.transform_atrf2014_to_gda2020', _gen_atrf, mutable=True)
 _simple('transform.transform_gda2020_to_atrf2014', 'f:transform.transform_gda2020_to_atrf2014', _gen_atrf, mutable=True)
 _simple('transform.ntv2_2d', 'f:transform.ntv2_2d',
-        lambda rng, ctx: [{'$grid': 'std'}, round(rng.uniform(-37.95, -36.05), 6), round(rng.uniform(144.05, 145.95), 6),
+        lambda rng, ctx: [{'$grid': rng.choice(['std', 'std', 'alt'])}, round(rng.uniform(-37.95, -36.05), 6), round(rng.uniform(144.05, 145.95), 6),
                           rng.random() < 0.5, rng.choice(['bicubic', 'bilinear'])], mutable=True)
 
 # -- coord -----------------------------------------------------------------------------------------
